@@ -991,7 +991,9 @@ def capsule(
         count = np.array([32, 64], dtype=np.int64)
     else:
         count = np.array(count, dtype=np.int64)
-    count += np.mod(count, 2)
+    # the profile is split into two hemispheres so it needs an even
+    # number of points: the sections around the axis are used as passed
+    count[0] += count[0] % 2
 
     height = abs(float(height))
     radius = abs(float(radius))
